@@ -676,7 +676,7 @@ struct Driver {
       } else if (op == "at") {
         NEED_ALIVE(a);
         long i = I(2);
-        NEED(i >= 0);
+        NEED(i >= 0 && static_cast<unsigned long long>(i) <= static_cast<unsigned long long>(std::numeric_limits<typename V::size_type>::max()));
         arm();
         int got = v(a).at(static_cast<typename V::size_type>(i)).value();
         if (i >= sz) fail("C08", "at(i) with i >= size() did not throw");
@@ -748,8 +748,10 @@ struct Driver {
           if (!alive[k] || !before[k].alive) continue;
           std::vector<int> now = contents(v(k));
           if (limitErr) {
-            if (now != before[k].vals || static_cast<long>(v(k).capacity()) != before[k].cap)
-              fail("C08", "container changed by an operation that threw " + exn);
+            if (now != before[k].vals)
+              fail("C08", "contents changed by an operation that threw " + exn);
+            else if (static_cast<long>(v(k).capacity()) != before[k].cap)
+              fail("C08", "capacity changed by an operation that threw " + exn);
           } else if (strongOp && touched[k]) {
             if (now != before[k].vals) fail("C09", "strong guarantee: contents changed by failed " + op);
           }
